@@ -645,6 +645,10 @@ def spec_table_alloc_span(ctx, make_exe):
     return _run_table(ctx, make_exe, [[2], [1, 1]], 3, 6, _post_table)
 
 
+def spec_table_alloc_span_only(ctx, make_exe):
+    return _run_table(ctx, make_exe, [[2]], 3, 6, _post_table)
+
+
 def replay_table_alloc(fd, vals, info):
     # harness draws: width raw nrows; per row ncells; per cell span size min  (fixed shape encoded by name)
     shape = eval(info.get("shape", "[[1,1]]"))
@@ -1297,6 +1301,52 @@ def spec_dom_constructors(ctx, make_exe):
         raise Inconclusive("only %d constructor closures could be checked" % checked)
     return {"closures_checked": checked, "paths": total}
 
+# ----------------------------------------------------------------------------
+# SPEC: the :nth-child(...) argument closures never panic, whatever digits they are given
+# ----------------------------------------------------------------------------
+
+def spec_nth_parse(ctx, make_exe):
+    closures = ctx.find(r"parse_nth_child_args::\{closure#\d+\}$")
+    closures = [f for f in closures if any(re.search(r"FromStr>::from_str", " ".join(b.raw)) for b in f.blocks.values())]
+    if len(closures) < 3:
+        raise Inconclusive("expected the three an+b closures of parse_nth_child_args, found %d" % len(closures))
+    total = 0
+    import summaries
+    orig = summaries.summarize
+    for f in closures:
+        exe = make_exe(inline=[r"parser::Sign::val$", r"Sign::val$"])
+
+        def summ(exe_, st_, f_, bb_, callee, args, dest_ty):
+            c = callee.strip()
+            if re.search(r"<i32 as FromStr>::from_str$", c):
+                # digit1 matched one or more ASCII digits of any length: the value fits i32 or parsing fails
+                outs = []
+                ok = st_.clone()
+                v = exe_.fresh("i32", exe_.fresh_name("parsed"))
+                ok.pc.append(v.e >= 0)
+                outs.append((ok, VAgg("Result::Ok", "Ok", [v])))
+                err = st_.clone()
+                outs.append((err, VAgg("Result::Err", "Err", [VOpaque("ParseIntError", "too_many_digits")])))
+                return outs
+            if re.search(r"Result::<.*>::unwrap$", c):
+                v = args[0]
+                if isinstance(v, VAgg) and v.variant == "Ok":
+                    return [(st_, v.fields[0])]
+                if isinstance(v, VAgg) and v.variant == "Err":
+                    exe_.oblige(st_, z3.BoolVal(False), "panic", f_.name, bb_, "unwrap on a failed integer parse (too many digits)", tag="unwrap")
+                    return []
+            return orig(exe_, st_, f_, bb_, callee, args, dest_ty)
+        summaries.summarize = summ
+        try:
+            outs = exe.run(f.name, {}, State())
+        finally:
+            summaries.summarize = orig
+        total += len(outs)
+        for (s2, ret) in outs:
+            ok = isinstance(ret, VAgg) and (ret.path == "tuple" or ret.variant in ("Ok", "Err"))
+            post(exe, s2, z3.BoolVal(bool(ok)), f.name, "the closure returns a coefficient pair (or an error value)")
+    return {"closures": [f.name for f in closures], "paths": total}
+
 
 ALL = [
     Spec("table_col_width", ["C06", "C02", "C01"], spec_table_col_width,
@@ -1371,6 +1421,11 @@ ALL = [
          assumptions=["children are opaque nodes; is_shallow_empty returns an arbitrary boolean per child",
                       "the id / pseudo-content wrappers (which call the inner constructor through a boxed FnOnce) are skipped"],
          replay=lambda fd, vals, info: {"harness": "m_dom_children", "values": [[0]]}),
+    Spec("nth_parse", ["C17", "C01"], spec_nth_parse,
+         functions=["parse_nth_child_args::{closure} (the three an+b value closures)"],
+         bounds="digit strings of any length (integer parsing either yields a non-negative i32 or fails); any sign",
+         assumptions=["<i32 as FromStr>::from_str by contract on digit-only input", "the nom combinators around the closures are not executed"],
+         replay=lambda fd, vals, info: {"harness": "m_nth_parse", "values": [[0]]}),
     Spec("table_alloc_2col", ["C06", "C02", "C01", "C03"], spec_table_alloc_2,
          functions=["render_table_tree (whole function incl. estimate loop, allocation closures, shrink loop)",
                     "RenderTable::rows", "RenderTableRow::cells", "RenderTableCell::get_size_estimate", "SizeEstimate::max",
@@ -1379,6 +1434,10 @@ ALL = [
          assumptions=["cell size estimates are preset symbolic values", "start_block / add_horizontal_border_width succeed",
                       "into_rows is observed (arguments captured), not executed", "iterator adaptors by contract over vectors of concrete length"],
          replay=replay_table_alloc),
+    Spec("table_alloc_span_only", ["C06", "C03"], spec_table_alloc_span_only,
+         functions=["render_table_tree (whole function)"],
+         bounds="one row with a single colspan=2 cell over 2 columns; cell size <= 3, table width <= 6",
+         assumptions=["as table_alloc_2col"], replay=replay_table_alloc),
     Spec("table_alloc_3col", ["C06", "C02", "C01"], spec_table_alloc_3, tier="thorough",
          functions=["render_table_tree (whole function)"],
          bounds="1 row x 3 columns; cell size <= 3, table width <= 8", assumptions=["as table_alloc_2col"], replay=replay_table_alloc),
